@@ -11,12 +11,52 @@ From Mesa Require Import Common.ListX Common.CellState Generated.Tables Model.Ce
 Import ListNotations.
 Open Scope Z_scope.
 
-(* the environment when only agents 1 .. n exist yet *)
-Definition env_at (e : env) (n : Z) : env :=
-  {| e_ncells := e_ncells e; e_nagents := n; e_cap := e_cap e; e_conn := e_conn e; e_grid := e_grid e;
-     e_kind := e_kind e; e_dirs := e_dirs e |}.
+(* connections changed at run time by Cell.connect / Cell.disconnect: (cell, key) -> Some target | None (deleted);
+   the most recent entry wins, anything else is the connection the space was built with *)
+Definition ovl := list ((Z * list Z) * option Z).
+Fixpoint ov_get (o : ovl) (c : Z) (d : list Z) : option (option Z) :=
+  match o with
+  | [] => None
+  | ((c', d'), t) :: r => if (c' =? c) && zlist_eqb d' d then Some t else ov_get r c d
+  end.
 
-Record xstate := { xs : state; born : Z }.     (* born = number of agents created so far *)
+(* the environment when only agents 1 .. n exist yet and the connections have been edited by o *)
+Definition env_x (e : env) (n : Z) (o : ovl) : env :=
+  {| e_ncells := e_ncells e; e_nagents := n; e_cap := e_cap e;
+     e_conn := fun c d => match ov_get o c d with Some t => t | None => e_conn e c d end;
+     e_grid := e_grid e; e_kind := e_kind e; e_dirs := e_dirs e |}.
+
+Record xstate := { xs : state; born : Z; ov : ovl }.     (* born = number of agents created so far *)
+
+(* CellCollection.select(filter_func, at_most): the filters the harness can build on both sides *)
+Inductive cpred :=
+| PAny                    (* filter_func=None *)
+| PEmpty                  (* lambda cell: cell.is_empty *)
+| PNonEmpty               (* lambda cell: not cell.is_empty *)
+| PAtLeast (k : Z)        (* lambda cell: len(cell.agents) >= k *)
+| PIdxMod (m r : Z)       (* lambda cell: index(cell) % m == r   (m > 0) *)
+| PHas (a : Z).           (* lambda cell: agent_a in cell.agents *)
+Definition cpred_eval (s : state) (p : cpred) (c : Z) : bool :=
+  match p with
+  | PAny => true
+  | PEmpty => is_empty s c
+  | PNonEmpty => negb (is_empty s c)
+  | PAtLeast k => zlen (content s c) >=? k
+  | PIdxMod m r => c mod m =? r
+  | PHas a => memz a (content s c)
+  end.
+Inductive amost := AInf | AInt (k : Z) | AFrac (num den : Z).   (* float("inf") | an int | the float num/den <= 1.0 *)
+(* `if at_most <= 1.0 and isinstance(at_most, float): at_most = int(len(self) * at_most)` *)
+Definition limit_of (len : Z) (am : amost) : option Z :=
+  match am with AInf => None | AInt k => Some k | AFrac num den => Some (len * num / den) end.
+(* the generator:  count = 0; for cell in self: if count >= at_most: break; if not f or f(cell): yield cell; count += 1 *)
+Fixpoint sel_loop (p : Z -> bool) (lim : option Z) (count : Z) (l : list Z) : list Z :=
+  match l with
+  | [] => []
+  | c :: t =>
+      if match lim with Some k => count >=? k | None => false end then []
+      else if p c then c :: sel_loop p lim (count + 1) t else sel_loop p lim count t
+  end.
 
 Inductive coll := CAll | CEmpties.             (* space.all_cells | space.empties *)
 
@@ -32,7 +72,11 @@ Inductive xop :=
 | NewAgent                                        (* the next agent of the case is created (and registered) *)
 | CollRandomCell (w : coll) (outcome : option Z)  (* collection.select_random_cell() *)
 | CollRandomAgent (w : coll) (outcome : option Z) (* collection.select_random_agent() *)
-| CollView (w : coll).                            (* len(collection), collection.cells, list(collection.agents) *)
+| CollView (w : coll)                             (* len(collection), collection.cells, list(collection.agents) *)
+| CollSelect (w : coll) (p : cpred) (am : amost)  (* collection.select(filter, at_most): its cells and agents *)
+| Connect (c other : Z) (key : list Z)            (* cell.connect(other, key) *)
+| Disconnect (c other : Z) (ks : list (list Z))   (* cell.disconnect(other); ks = the direction keys of the history *)
+| ConnQuery (c : Z) (ks : list (list Z)).         (* [cell.connections.get(k) for k in ks] *)
 
 Definition raw_result (r : option Z) : result := match r with None => Ok [] | Some k => Err k end.
 
@@ -46,24 +90,40 @@ Definition choice (l : list Z) (outcome : option Z) : result :=
          end
   end.
 
+Definition coll_select (e : env) (s : state) (w : coll) (p : cpred) (am : amost) : list Z :=
+  let l := coll_cells e s w in sel_loop (cpred_eval s p) (limit_of (zlen l) am) 0 l.
+
+Definition with_xs (x : xstate) (s : state) : xstate := {| xs := s; born := born x; ov := ov x |}.
+Definition with_ov (x : xstate) (o : ovl) : xstate := {| xs := xs x; born := born x; ov := o |}.
+
 Definition xstep (e : env) (x : xstate) (o : xop) : xstate * result :=
-  let en := env_at e (born x) in
+  let en := env_x e (born x) (ov x) in
   match o with
-  | Api o' => let '(s', r) := step en (xs x) o' in ({| xs := s'; born := born x |}, r)
+  | Api o' => let '(s', r) := step en (xs x) o' in (with_xs x s', r)
   | CellAdd c a =>
       if in_cells en c && in_agents en a
-      then let '(s', r) := add_agent en (xs x) c a in ({| xs := s'; born := born x |}, raw_result r)
+      then let '(s', r) := add_agent en (xs x) c a in (with_xs x s', raw_result r)
       else (x, NotApplicable)
   | CellRemove c a =>
       if in_cells en c && in_agents en a
-      then let '(s', r) := remove_agent (xs x) c a in ({| xs := s'; born := born x |}, raw_result r)
+      then let '(s', r) := remove_agent (xs x) c a in (with_xs x s', raw_result r)
       else (x, NotApplicable)
   | NewAgent =>
-      if born x <? e_nagents e then ({| xs := xs x; born := born x + 1 |}, Ok [born x + 1]) else (x, NotApplicable)
+      if born x <? e_nagents e then ({| xs := xs x; born := born x + 1; ov := ov x |}, Ok [born x + 1]) else (x, NotApplicable)
   | CollRandomCell w out => (x, choice (coll_cells en (xs x) w) out)
   | CollRandomAgent w out => (x, choice (coll_agents en (xs x) w) out)
   | CollView w =>
       (x, Ok (zlen (coll_cells en (xs x) w) :: coll_cells en (xs x) w ++ [-9] ++ coll_agents en (xs x) w))
+  | CollSelect w p am =>
+      let l := coll_select en (xs x) w p am in (x, Ok (zlen l :: l ++ [-9] ++ flat_map (content (xs x)) l))
+  | Connect c other key =>
+      if in_cells en c && in_cells en other then (with_ov x (((c, key), Some other) :: ov x), Ok []) else (x, NotApplicable)
+  | Disconnect c other ks =>
+      if in_cells en c && in_cells en other
+      then (with_ov x (map (fun d => ((c, d), None)) (filter (fun d => opt_eqb (e_conn en c d) (Some other)) ks) ++ ov x), Ok [])
+      else (x, NotApplicable)
+  | ConnQuery c ks =>
+      if in_cells en c then (x, Ok (map (fun d => match e_conn en c d with Some t => t | None => -1 end) ks)) else (x, NotApplicable)
   end.
 
 (* is_full with a fractional capacity q: len == q is never true; admission uses ceil(q) (see CellSpaceXProofs) *)
@@ -71,7 +131,7 @@ Definition xis_full (frac : Z -> bool) (e : env) (s : state) (c : Z) : bool := n
 
 (* the view of CellSpace.v over the agents created so far, with is_full of fractional capacities *)
 Definition xview (e : env) (frac : Z -> bool) (x : xstate) : list Z :=
-  let en := env_at e (born x) in let s := xs x in
+  let en := env_x e (born x) (ov x) in let s := xs x in
   flat_map (fun a => [match ptr s a with Some c => c | None => -1 end; b2z (reg s a)]) (agents_dom en)
   ++ [-4]
   ++ flat_map (fun c => zlen (content s c) :: content s c
@@ -100,7 +160,7 @@ Record xcase := {
 Definition frac_of (c : xcase) : Z -> bool :=
   fun i => if (0 <=? i) then nth (Z.to_nat i) (x_frac c) false else false.
 
-Definition xinit (n : Z) : xstate := {| xs := init; born := n |}.
+Definition xinit (n : Z) : xstate := {| xs := init; born := n; ov := [] |}.
 
 Definition xrun_case (c : xcase) : list (list Z) :=
   xrun_ops (env_of_case (x_base c)) (frac_of c) (xinit (x_born0 c)) (x_ops c).
